@@ -385,7 +385,7 @@ func (n *nativeRunner) run(dir string, jobs []job) ([]nativeResult, error) {
 		os.WriteFile(in, b, 0o644)
 		cmd := exec.Command(bin, "-test.run", "^TestZZVerifReplay$", "-test.count=1", "-test.timeout=120s")
 		cmd.Dir = filepath.Join(*repoDir, dir)
-		cmd.Env = append(os.Environ(), "VERIF_REPLAY_IN="+in, "VERIF_REPLAY_OUT="+out)
+		cmd.Env = append(os.Environ(), "VERIF_REPLAY_IN="+in, "VERIF_REPLAY_OUT="+out, "VERIF_TIER="+*tier)
 		// cap memory so that "allocates without bound" findings end in an allocation failure, not an OOM kill
 		sh := exec.Command("sh", "-c", "ulimit -v 4194304; exec \"$0\" \"$@\"", bin, "-test.run", "^TestZZVerifReplay$", "-test.count=1", "-test.timeout=120s")
 		sh.Dir, sh.Env = cmd.Dir, cmd.Env
@@ -570,6 +570,7 @@ func runProperty() int {
 			MaxDepth:  optInt(h, *tier, "depth", 400),
 			AllocCap:  optInt(h, *tier, "alloc", 4096),
 			Workers:   *workers,
+			Thorough:  *tier == "thorough",
 			KeepLog:   true,
 		}
 		// redirect=<callee>:<harness func>[,…]: symbolic-only replacement of a callee of the package under
